@@ -10,6 +10,7 @@ Exit codes: 0 property held on everything explored; 1 + "VIOLATION property=<id>
 a disagreement between the real code and the specification that a re-execution of the replay
 file reproduced; 2 infrastructure problem (never a verdict).
 """
+import threading
 import sys, os, json, subprocess, tempfile, shutil, time, hashlib, re, glob, concurrent.futures as cf
 
 ROOT = os.path.dirname(os.path.dirname(os.path.abspath(__file__)))
@@ -587,11 +588,15 @@ def replay_file(run, cand, outdir):
     doc = {'property': m['id'], 'trace_module': cand['trace_module'], 'race': cand.get('race', False), 'pool': pool, 'prefix_cases': prefix, 'case': case, 'event': ev, 'mismatch': m,
            'how': 'verifctl replay <this file>: the case is re-executed on the current /repo build and the trace re-validated by TLC'}
     body = json.dumps(doc, indent=1, sort_keys=True)
-    sha = hashlib.sha1(json.dumps([case, ev], sort_keys=True).encode()).hexdigest()[:16]
+    # two disagreements of different classes at the same event are different candidates (they are confirmed in parallel):
+    # each gets a file of its own, written atomically
+    sha = hashlib.sha1(json.dumps([case, ev, m.get('id'), (m.get('info') or ['?'])[0]], sort_keys=True).encode()).hexdigest()[:16]
     d = os.path.join(outdir, m['id'])
     os.makedirs(d, exist_ok=True)
     p = os.path.join(d, sha + '.json')
-    open(p, 'w').write(body)
+    tmp = '%s.%d.%d.tmp' % (p, os.getpid(), threading.get_ident())
+    open(tmp, 'w').write(body)
+    os.replace(tmp, p)
     return p
 
 
@@ -607,7 +612,8 @@ def mismatch_key(m):
 def do_replay(run, path):
     """Re-execute a replay file; return the list of mismatches of its property that recur."""
     doc = json.load(open(path))
-    wd = run.sub('replay-' + os.path.basename(path))
+    # a directory of its own per re-execution (the single-case replay and the replay with its prefix cases share a file name)
+    wd = run.sub('replay-%s-%s-%d' % (os.path.basename(os.path.dirname(path)), os.path.basename(path), threading.get_ident()))
     cases = os.path.join(wd, 'cases-00.ndjson')
     with open(cases, 'w') as f:
         if doc.get('pool'):
